@@ -1,6 +1,206 @@
 import ScryerModel.Proofs.Loader
+/-!
+C35 — Reloading a program is idempotent (theorems about `Scryer.Loader`, the model of the reload
+protocol of loader.pl / loader.rs / load_state.rs / compile.rs).
+
+`load fm src items s` is the consult/load of the text `items` as source `src` (`fm`: the source
+path is a real file, so that the loader keeps a per-file record). The hypotheses used below:
+* `Canon items`: in the text, the declarations of a predicate precede its clauses;
+* `s.wf`: in every predicate record flags and tracking imply a global skeleton (an invariant of
+  `load` and `assertz`, theorems `C35_load_wf`, and true of the initial state).
+-/
 namespace Scryer.Loader
 
-theorem C35_placeholder : (1:Nat) = 1 := rfl
+/-- in the text, the declarations of every predicate precede its clauses. -/
+def Canon (items : List Item) : Prop := ∀ k, canonK (evsOf k (events items none))
+
+/-- every predicate record is well formed. -/
+def State.wf (s : State) : Prop := ∀ k, (s.preds k).wf2
+
+theorem State.eq_of {s t : State} (h1 : s.preds = t.preds) (h2 : s.sdef = t.sdef)
+    (h3 : s.ops = t.ops) (h4 : s.opOwn = t.opOwn) (h5 : s.flags = t.flags) : s = t := by
+  cases s; cases t; simp_all
+
+theorem any_isGroup (l : List KEv) : l.any isGroup = !(groupsOf l).isEmpty := by
+  induction l with
+  | nil => rfl
+  | cons e l ih => cases e <;> simp [isGroup, groupsOf, ih]
+
+/-- The load of a canonical text is its closed form: the flags declared are added, the clauses of
+    other sources are kept (in their order, first) exactly when the predicate is tracked and
+    discontiguous or multifile, and the source contributes all its clauses (discontiguous) or its
+    last group (otherwise). -/
+theorem C35_loadKey_closed_form (fm : Bool) (src : Src) (inS : Bool) (evs : List KEv) (p : Pred)
+    (hc : canonK evs) (h : p.wf2) : loadKey fm src inS evs p = specKey fm src inS evs p :=
+  loadKey_eq_specKey fm src inS evs p hc h
+
+/-- Per predicate: loading a file a second time gives the state after the first load. -/
+theorem C35_loadKey_idem (src : Src) (inS : Bool) (evs : List KEv) (p : Pred)
+    (hc : canonK evs) (h : p.wf2) :
+    loadKey true src (if (groupsOf evs).isEmpty then inS else true) evs (loadKey true src inS evs p)
+      = loadKey true src inS evs p := by
+  rw [loadKey_eq_specKey _ _ _ _ _ hc (loadKey_wf2 true src inS evs p h),
+      loadKey_eq_specKey _ _ _ _ _ hc h]
+  simp only [specKey_eq, if_true]
+  exact spec_idem_file src inS (declsOf evs) (groupsOf evs) (wipeK src inS p)
+    (wipeK_wf2 src inS p h) (wipeK_clean src inS p h) (wipeK_idem src inS p)
+
+/-- well-formedness is an invariant of loading. -/
+theorem C35_load_wf (fm : Bool) (src : Src) (items : List Item) (s : State) (h : s.wf) :
+    (load fm src items s).wf := fun k => loadKey_wf2 fm src _ _ _ (h k)
+
+/-- **Idempotence.** Consulting the same file text again leaves the whole loader state (every
+    predicate's clauses and flags, the operator table, the flags, the per-file records) exactly as
+    after the first load — for every prior state. -/
+theorem C35_load_idem (src : Src) (items : List Item) (s : State) (hc : Canon items) (h : s.wf) :
+    load true src items (load true src items s) = load true src items s := by
+  apply State.eq_of
+  · funext k
+    have := C35_loadKey_idem src (s.sdef src k) (evsOf k (events items none)) (s.preds k) (hc k) (h k)
+    simp only [load, Bool.true_and, beq_self_eq_true, hasGroup, any_isGroup]
+    cases hg : (groupsOf (evsOf k (events items none))).isEmpty <;> simp_all
+  · funext a k
+    simp only [load]
+    split <;> simp_all
+  · simp only [load, Bool.true_and, beq_self_eq_true, if_true]
+    exact assigns_idem (opAssigns items) (s.opOwn src) s.ops
+  · funext a o
+    simp only [load]
+    split <;> simp_all
+  · simp only [load]
+    exact assigns_twice _ _
+
+/-- Any number of repeated loads gives the state after the first one. -/
+theorem C35_loadN_idem (src : Src) (items : List Item) (s : State) (hc : Canon items) (h : s.wf)
+    (n : Nat) : loadN true src items (n + 1) s = load true src items s := by
+  induction n with
+  | zero => rfl
+  | succ n ih =>
+    show load true src items (loadN true src items (n + 1) s) = _
+    rw [ih]
+    exact C35_load_idem src items s hc h
+
+/-- The answers of every query are the same after 1 and after n loads. -/
+theorem C35_answers_stable (src : Src) (items : List Item) (s : State) (hc : Canon items)
+    (h : s.wf) (n : Nat) (k : Key) :
+    answers (loadN true src items (n + 1) s) k = answers (load true src items s) k := by
+  rw [C35_loadN_idem src items s hc h n]
+
+/-- The model's size measure (clauses and operators) is the same after 1 and after n loads. -/
+theorem C35_size_stable (src : Src) (items : List Item) (s : State) (hc : Canon items)
+    (h : s.wf) (n : Nat) (keys ops : List Nat) :
+    size (loadN true src items (n + 1) s) keys ops = size (load true src items s) keys ops := by
+  rw [C35_loadN_idem src items s hc h n]
+
+/-- Frame: a predicate the text does not mention, that has no clause of this source and that the
+    file did not define statically before, is untouched by the load. -/
+theorem C35_frame (fm : Bool) (src : Src) (items : List Item) (s : State) (k : Key)
+    (hno : evsOf k (events items none) = [])
+    (hown : foreign src (s.preds k).cls = (s.preds k).cls)
+    (hs : s.sdef src k = false ∨ (s.preds k).ext = true) :
+    (load fm src items s).preds k = s.preds k := by
+  simp only [load, hno, loadKey, List.foldl_nil]
+  cases fm
+  · rfl
+  · generalize s.preds k = p at hown hs
+    cases p with
+    | mk ext dyn disc multi defined tracked cls =>
+    simp only at hown hs
+    cases ext <;> cases tracked <;> rcases hs with hs | hs <;> simp_all [wipeK]
+
+/-- Reloading a file keeps the clauses other sources (other files, assert) contributed to a
+    tracked discontiguous or multifile predicate, in their order. -/
+theorem C35_other_sources_kept (src : Src) (inS : Bool) (evs : List KEv) (p : Pred)
+    (hc : canonK evs) (h : p.wf2) (ht : p.tracked = true) (hk : p.disc = true ∨ p.multi = true) :
+    foreign src (loadKey true src inS evs p).cls = foreign src p.cls := by
+  rw [loadKey_eq_specKey _ _ _ _ _ hc h, specKey_eq]
+  obtain ⟨⟨h1, h2, h3⟩, h4⟩ := h
+  cases p with
+  | mk ext dyn disc multi defined tracked cls =>
+  simp only at h1 h2 h3 h4 ht hk
+  subst ht
+  have hext : ext = true := h1 rfl
+  subst hext
+  rcases List.eq_nil_or_concat (groupsOf evs) with hg | ⟨init, last, hg⟩
+  · rw [hg]
+    simp only [closed_nil, declsFold_eq, if_true, wipeK]
+    by_cases hd : Fl.disc ∈ declsOf evs <;> simp [hd, foreign_idem]
+  · rw [hg]
+    simp only [List.concat_eq_append, closed_snoc, declsFold_eq, if_true, wipeK]
+    by_cases hd : Fl.disc ∈ declsOf evs <;> by_cases hm : Fl.multi ∈ declsOf evs <;>
+      cases disc <;> cases multi <;>
+      simp_all [foreign_idem, foreign_append, foreign_ownCls]
+
+/-- A predicate that is neither discontiguous nor multifile after the text's declarations
+    (static, or dynamic only) consists, after the load, of exactly the source's last clause group:
+    clauses asserted at run time or loaded from elsewhere are gone. -/
+theorem C35_plain_predicate_replaced (fm : Bool) (src : Src) (inS : Bool) (evs : List KEv) (p : Pred)
+    (hc : canonK evs) (h : p.wf2) (init : List (List Nat)) (last : List Nat)
+    (hg : groupsOf evs = init ++ [last])
+    (hd : p.disc = false ∧ Fl.disc ∉ declsOf evs) (hm : p.multi = false ∧ Fl.multi ∉ declsOf evs) :
+    (loadKey fm src inS evs p).cls = ownCls src last := by
+  rw [loadKey_eq_specKey _ _ _ _ _ hc h, specKey_eq, hg, closed_snoc, declsFold_eq]
+  cases p with
+  | mk ext dyn disc multi defined tracked cls =>
+  simp only at hd hm
+  cases fm <;> cases ext <;> cases tracked <;> cases inS <;> simp_all [wipeK]
+
+/-! ## Witnesses (non-vacuity, the pinned defect, the limits of the statement) -/
+
+/-- a file: `:- dynamic(p/1). :- discontiguous(p/1). p(1). q(0). p(2).` -/
+def exText : List Item :=
+  [.decl 1 .dyn, .decl 1 .disc, .clause 1 1, .clause 2 0, .clause 1 2]
+
+instance (evs : List KEv) : Decidable (canonK evs) := by unfold canonK; infer_instance
+
+example : Canon exText := by
+  intro k
+  have he : events exText none = [(1, .decl .dyn), (1, .decl .disc), (1, .group [1]),
+      (2, .group [0]), (1, .group [2])] := by decide
+  rw [he]
+  by_cases h1 : k = 1
+  · subst h1; decide
+  · by_cases h2 : k = 2
+    · subst h2; decide
+    · have e1 : ¬ (1 = k) := fun h => h1 h.symm
+      have e2 : ¬ (2 = k) := fun h => h2 h.symm
+      simp [evsOf, canonK, declsOf, groupsOf, e1, e2]
+
+example : State.init.wf := fun _ => by simp [State.init, Pred.wf2, Pred.wf]
+
+/-- load, assertz(p(9)), reload: the asserted clause of the dynamic discontiguous predicate is
+    kept (before the file's clauses), and a further reload changes nothing. -/
+example :
+    let s1 := load true 1 exText State.init
+    let s2 := load true 1 exText (assertz 1 9 s1)
+    answers s1 1 = some [1, 2] ∧ answers s2 1 = some [9, 1, 2] ∧
+    answers (load true 1 exText s2) 1 = some [9, 1, 2] := by decide
+
+/-- The pinned implementation (finding C35-1): after the same history the predicate answers
+    nothing, and stays so on further reloads and asserts. -/
+example :
+    let evs := evsOf 1 (events exText none)
+    let q1 : PredP := loadKeyPinned 1 false evs { p := {} }
+    let q2 : PredP := { q1 with p := (assertz 1 9 { State.init with preds := fun _ => q1.p }).preds 1 }
+    let q3 := loadKeyPinned 1 true evs q2
+    answersP q1 = some [1, 2] ∧ answersP q3 = some [] ∧
+    answersP (loadKeyPinned 1 true evs q3) = some [] := by decide
+
+/-- A non-file source keeps no per-file record: a text that adds a clause to a predicate declared
+    discontiguous by another text is NOT idempotent there (finding C35-5); as a file it is. -/
+example :
+    let s0 := load false 0 [.decl 1 .disc] State.init
+    answers (load false 0 [.clause 1 7] s0) 1 = some [7] ∧
+    answers (loadN false 0 [.clause 1 7] 2 s0) 1 = some [7, 7] ∧
+    answers (loadN true 2 [.clause 1 7] 2 s0) 1 = some [7] := by decide
+
+/-- two files contribute to a multifile predicate; reloading the first keeps the second's
+    clauses (they move in front), and is idempotent. -/
+example :
+    let a : List Item := [.decl 1 .multi, .clause 1 1]
+    let b : List Item := [.decl 1 .multi, .clause 1 2, .clause 1 3]
+    let s := load true 2 b (load true 1 a State.init)
+    answers s 1 = some [1, 2, 3] ∧ answers (load true 1 a s) 1 = some [2, 3, 1] ∧
+    answers (loadN true 1 a 5 s) 1 = some [2, 3, 1] := by decide
 
 end Scryer.Loader
